@@ -97,7 +97,18 @@ func (w *World) valStr(t int) string {
 	return w.Ops[t].Val.String()
 }
 
-func strOf(n int) string { return strings.Repeat("a", n) }
+// strOf: a string of exactly n BYTES (x/staking's limits count bytes).  Unless n is a multiple of five it is made of
+// two-byte characters (plus one ASCII letter for odd n), so that byte length and character count differ — in
+// particular for lengths one above the (even, multiple-of-five) limits.
+func strOf(n int) string {
+	if n < 2 || n%5 == 0 {
+		return strings.Repeat("a", n)
+	}
+	if n%2 == 1 {
+		return "a" + strings.Repeat("é", (n-1)/2)
+	}
+	return strings.Repeat("é", n/2)
+}
 
 func decArg(s string) sdkmath.LegacyDec {
 	if s == "nil" {
@@ -303,12 +314,29 @@ func (n *Node) ExecBlock(b Block, seqBump map[int]uint64) (out BlockOut) {
 		}
 		votes = append(votes, abci.VoteInfo{Validator: abci.Validator{Address: n.W.PubKey(v.Key).Address(), Power: v.Power}, BlockIdFlag: flag})
 	}
+	var misb []abci.Misbehavior
+	for _, e := range b.Evid {
+		// the infraction happened at an earlier height of this chain: one second per block back from now is close enough for
+		// the age check (the evidence is always fresh)
+		misb = append(misb, abci.Misbehavior{Type: abci.MisbehaviorType_DUPLICATE_VOTE,
+			Validator: abci.Validator{Address: n.W.PubKey(e.Key).Address(), Power: e.Power},
+			Height:    e.Height, Time: t.Add(-time.Duration(h-e.Height) * time.Second), TotalVotingPower: e.Power})
+	}
 	req := &abci.RequestFinalizeBlock{
 		Height:            h,
 		Time:              t,
 		Txs:               txs,
 		DecidedLastCommit: abci.CommitInfo{Round: 0, Votes: votes},
+		Misbehavior:       misb,
 		Hash:              []byte(fmt.Sprintf("blockhash-%d", h)),
+	}
+	// every transaction first goes through CheckTx, as it does on a node's way into the mempool (the check state sits at
+	// the last committed height); the verdict is not used — a proposer may include what it likes
+	for _, bz := range txs {
+		func() {
+			defer func() { _ = recover() }()
+			_, _ = n.App.CheckTx(&abci.RequestCheckTx{Tx: bz, Type: abci.CheckTxType_New})
+		}()
 	}
 	func() {
 		defer func() {
